@@ -80,7 +80,7 @@ class Check(HCheck):
         prep = [al.R0, (al.page(A + L.long_stem(75, b"a")),), (al.page(A + L.long_stem(149, b"a") + b"p:k|"),)]
         sp.append(Space(Cfg("never"), [al.page(u, i % 2 == 0) for i, u in enumerate(shapes)], 1, roots=prep, name="shapes/one-insertion"))
         # U-core with webentity prefixes and rule anchors (automatic variations become locatable)
-        cops = [al.page(Ax), al.page(Axy, True), al.page(Ab), al.page(Aw), al.page(Sx), al.page(Bb), al.create(C1), al.addprefix(Az, 0), al.rmprefix(A + b"p:q|"), al.rule(Ax, "path2"), al.links((Az, Bb)), al.move(Ab, 0)]
+        cops = [al.page(A + b"p:a|"), al.page(Axy + b"p:q|"), al.page(Ax), al.page(Axy, True), al.page(Ab), al.page(Aw), al.page(Sx), al.page(Bb), al.create(C1), al.addprefix(Az, 0), al.rmprefix(A + b"p:q|"), al.rule(Ax, "path2"), al.links((Az, Bb)), al.move(Ab, 0)]
         sp.append(Space(Cfg("domain"), cops, 4 if thorough else 3, name="core/domain"))
         return sp
 
